@@ -612,3 +612,119 @@ func init() {
 		Real:   e1Real, Stub: e1Stub,
 		Assume: []string{"H(p) is computed from subscriptions that were settled before the publishes", "a lost RPC response makes the outcome of the remote write unknown to the publisher: the acknowledgement may be withheld, clause (b) is not applied", "fault dimension is sampled per action (append error on one node, or one node pair failing), not enumerated as subsets"}})
 }
+
+// ---------------------------------------------------------------------------------------
+// C06, system-level variant: identifiers in flight on one node are pairwise distinct.
+// The writer allocates every outbound QoS>0 identifier of a node from one pool, so two
+// exchanges that are open at the same time on that node - on whichever connections - must
+// carry different identifiers, and once everything is complete the pool is back to full.
+
+func judgeIDs(w *world) {
+	endMs := w.nowMs()
+	type span struct {
+		client, pid int
+		tag         string
+		from, to    int64
+		node        int
+	}
+	var spans []span
+	ids := make([]int, 0, len(w.clients))
+	for id := range w.clients {
+		ids = append(ids, id)
+	}
+	sort.Ints(ids)
+	for _, id := range ids {
+		cl := w.clients[id]
+		f := w.lifeFactsOf(cl)
+		for _, ex := range cl.exch {
+			if ex.qos == 0 {
+				continue
+			}
+			to := endMs + 1
+			// the identifier goes back to the pool when the broker processes the client's final
+			// acknowledgement: PUBACK (QoS 1) or PUBCOMP (QoS 2), sent by the scripted client
+			final := tPUBACK
+			if ex.qos == 2 {
+				final = tPUBCOMP
+			}
+			for _, ob := range w.obs {
+				if !ob.Rx && ob.Client == id && ob.Epoch == cl.epoch && ob.P.Type == final && ob.P.Pid == ex.pid && ob.AtMs >= ex.firstAt {
+					to = ob.AtMs
+					break
+				}
+			}
+			if f.cause != "" && f.causeAt < to {
+				to = f.causeAt // the exchange is void once its session has ended
+			}
+			spans = append(spans, span{client: id, pid: ex.pid, tag: ex.tag, from: ex.firstAt, to: to, node: cl.node})
+		}
+	}
+	judged := 0
+	for i := range spans {
+		for j := i + 1; j < len(spans); j++ {
+			a, b := spans[i], spans[j]
+			if a.node != b.node || a.pid != b.pid {
+				continue
+			}
+			judged++
+			if a.from < b.to && b.from < a.to {
+				w.o.violate("C06", "duplicate-id-in-flight", len(w.c.Steps), endMs, map[string]string{"same_connection": fmt.Sprint(a.client == b.client)},
+					"identifier %d was in flight for %s to client %d from %dms to %dms and was handed out again for %s to client %d at %dms", a.pid, a.tag, a.client, a.from, a.to, b.tag, b.client, b.from)
+				w.o.Stats["id_pairs_compared"] += int64(judged)
+				return
+			}
+		}
+	}
+	w.o.Stats["id_pairs_compared"] += int64(judged)
+	w.o.Stats["exchanges_tracked"] += int64(len(spans))
+	// and the pool drains back to full (same clause as C03 R5)
+	allDone := true
+	for _, id := range ids {
+		cl := w.clients[id]
+		if len(cl.open) > 0 && w.lifeFactsOf(cl).cause == "" {
+			allDone = false
+		}
+	}
+	if pool := wasp.VerifWriterPool(w.nodes[0].writer); pool != nil && allDone {
+		free := 0
+		for i := 0; i < 70000; i++ {
+			if pool.Get() < 1 {
+				break
+			}
+			free++
+		}
+		if free != 65535 {
+			w.o.violate("C06", "identifier-leak", len(w.c.Steps), endMs, map[string]string{"sign": fmt.Sprint(free < 65535)}, "every exchange is complete or its session gone, yet the writer's pool has %d free identifiers of 65535", free)
+		}
+		w.o.probe("pool_baseline_checked")
+	}
+	w.o.Nontrivial = len(spans) >= 2
+}
+
+// genC06E1: the retransmission scenario of C03 with more traffic while exchanges are pending
+func genC06E1(r *Rand, tier, profile string) *Case {
+	c := genC03(r, tier, profile)
+	c.Profile = "ids"
+	// more publishes spread over the observation period, so that identifiers are allocated while
+	// earlier exchanges are still waiting for their (late, wrong or missing) acknowledgements
+	var extra []Step
+	n := r.Range(2, 10)
+	for i := 0; i < n; i++ {
+		extra = append(extra, Step{K: "pub", At: int64(r.Range(200, 4000)), C: 0, T: "r/x", S: fmt.Sprintf("x%d", i+1), Q: r.Intn(2), I: int64(100 + i)})
+	}
+	// insert before the final sleep
+	last := len(c.Steps) - 1
+	c.Steps = append(append(append([]Step(nil), c.Steps[:last]...), extra...), c.Steps[last])
+	return c
+}
+
+func runC06E1(t *testing.T, c *Case) *Outcome {
+	return runE1(t, c, profileHooks{judge: judgeIDs})
+}
+
+func init() {
+	register(&Check{ID: "C06", Variant: "e1", Level: "exploration", Build: "maporder", Gen: genC06E1, Run: runC06E1, QuickS: 20, ThoroughS: 300,
+		Rule:   "system-level variant: the retransmission scenario (subscribers acknowledging late, wrongly or never, for PUBLISH and for PUBREL) with further publishes while exchanges are pending; identifiers of exchanges open at the same time on one node must be pairwise distinct and the writer's pool must drain back to full; non-trivial when >=2 QoS>0 exchanges tracked",
+		Real:   e1Real, Stub: e1Stub,
+		Assume: []string{"an exchange holds its identifier from the first PUBLISH until the client's PUBACK/PUBCOMP or the end of its session"}})
+}
